@@ -807,6 +807,68 @@ struct LockWalk<'h> {
     held: Vec<(Option<String>, &'static str)>,
     /// temporaries acquired in the current statement
     temps: Vec<&'static str>,
+    /// `let swap = Arc::as_ptr(&P.0) > Arc::as_ptr(&Q.0);` ↦ (P, Q, is_greater)
+    order_flags: BTreeMap<String, (String, String, bool)>,
+    /// names bound by the address-order idiom: the lower- / higher-addressed list
+    names: BTreeMap<String, &'static str>,
+}
+
+/// `Arc::as_ptr(&P.0) > Arc::as_ptr(&Q.0)` (or `<`) ↦ (P, Q, is_greater)
+fn addr_compare(e: &Expr) -> Option<(String, String, bool)> {
+    let Expr::Binary(b) = e else { return None };
+    let gt = match b.op {
+        syn::BinOp::Gt(_) => true,
+        syn::BinOp::Lt(_) => false,
+        _ => return None,
+    };
+    let side = |x: &Expr| -> Option<String> {
+        let t = strip(x);
+        let inner = t.strip_prefix("Arc::as_ptr(&")?.strip_suffix(".0)")?;
+        Some(inner.to_string())
+    };
+    Some((side(&b.left)?, side(&b.right)?, gt))
+}
+
+fn tuple2(b: &syn::Block) -> Option<(String, String)> {
+    match b.stmts.as_slice() {
+        [Stmt::Expr(Expr::Tuple(t), None)] if t.elems.len() == 2 => Some((strip(&t.elems[0]), strip(&t.elems[1]))),
+        _ => None,
+    }
+}
+
+impl LockWalk<'_> {
+    fn tgt(&self, recv: &str) -> &'static str {
+        let r = recv.trim_start_matches('&').trim_start_matches('(');
+        let first: String = r.chars().take_while(|c| c.is_alphanumeric() || *c == '_').collect();
+        match self.names.get(&first) {
+            Some(t) => t,
+            None => tgt_of(recv),
+        }
+    }
+    /// `let (x, y) = if swap { (Q, P) } else { (P, Q) };` with `swap = addr(P) > addr(Q)`:
+    /// `x` is the lower-addressed list, `y` the higher-addressed one
+    fn order_idiom(&mut self, l: &syn::Local) -> bool {
+        let Pat::Tuple(pt) = &l.pat else { return false };
+        let ids: Vec<String> = pt.elems.iter().filter_map(|p| if let Pat::Ident(i) = p { Some(i.ident.to_string()) } else { None }).collect();
+        if ids.len() != 2 || pt.elems.len() != 2 {
+            return false;
+        }
+        let Some(init) = &l.init else { return false };
+        let Expr::If(i) = &*init.expr else { return false };
+        let cmp = addr_compare(&i.cond).or_else(|| self.order_flags.get(&strip(&i.cond)).cloned());
+        let Some((p, q, gt)) = cmp else { return false };
+        let Some((_, Expr::Block(eb))) = i.else_branch.as_ref().map(|(t, e)| (t, &**e)) else { return false };
+        let (Some(th), Some(el)) = (tuple2(&i.then_branch), tuple2(&eb.block)) else { return false };
+        // under the condition the first component must be the lower address, and likewise under its negation
+        let (want_then, want_else) = if gt { ((q.clone(), p.clone()), (p.clone(), q.clone())) } else { ((p.clone(), q.clone()), (q.clone(), p.clone())) };
+        let both_lists = [tgt_of(&p), tgt_of(&q)];
+        if th == want_then && el == want_else && both_lists.contains(&"self_") && both_lists.contains(&"other") {
+            self.names.insert(ids[0].clone(), "lo");
+            self.names.insert(ids[1].clone(), "hi");
+            return true;
+        }
+        false
+    }
 }
 
 impl LockWalk<'_> {
@@ -827,17 +889,17 @@ impl LockWalk<'_> {
                     _ => None,
                 };
                 if let Some(k) = k {
-                    return Some((k, of, tgt_of(&strip(&inner.receiver)), m.args.iter().cloned().collect()));
+                    return Some((k, of, self.tgt(&strip(&inner.receiver)), m.args.iter().cloned().collect()));
                 }
             }
             return None;
         }
         match name.as_str() {
-            "lock" => Some(("blocking", "other", tgt_of(&strip(&m.receiver)), vec![])),
-            "try_lock" => Some(("try_", "other", tgt_of(&strip(&m.receiver)), vec![])),
+            "lock" => Some(("blocking", "other", self.tgt(&strip(&m.receiver)), vec![])),
+            "try_lock" => Some(("try_", "other", self.tgt(&strip(&m.receiver)), vec![])),
             h if m.args.is_empty() && self.helpers.contains_key(h) => {
                 let (k, of) = self.helpers[h];
-                Some((k, of, tgt_of(&strip(&m.receiver)), vec![]))
+                Some((k, of, self.tgt(&strip(&m.receiver)), vec![]))
             }
             _ => None,
         }
@@ -862,6 +924,14 @@ impl<'ast> Visit<'ast> for LockWalk<'_> {
                 },
                 _ => None,
             };
+            if self.order_idiom(l) {
+                return;
+            }
+            if let (Some(n), Some(init)) = (&name, &l.init) {
+                if let Some(c) = addr_compare(&init.expr) {
+                    self.order_flags.insert(n.clone(), c);
+                }
+            }
             if let Some(init) = &l.init {
                 if let Some((k, of, t, _)) = self.as_acq(&init.expr) {
                     // a guard bound to a name lives until `drop(name)` or the end of the function
@@ -914,7 +984,7 @@ impl<'ast> Visit<'ast> for LockWalk<'_> {
 }
 
 fn lock_events(block: &syn::Block, helpers: &BTreeMap<String, (&'static str, &'static str)>) -> Vec<LEv> {
-    let mut w = LockWalk { helpers, ev: vec![], held: vec![], temps: vec![] };
+    let mut w = LockWalk { helpers, ev: vec![], held: vec![], temps: vec![], order_flags: BTreeMap::new(), names: BTreeMap::new() };
     for s in &block.stmts {
         w.visit_stmt(s);
     }
